@@ -15,6 +15,7 @@ RULE = ('seeded worlds (layer DAG <= 5, <= 12 tests, every outcome kind via inje
         'are checked by the bracket automaton. distinct = digest of per-pid hook-site sequence + '
         'fired faults + option keys; non-trivial = at least one fault fired or a decorator/skip '
         'outcome occurred or children ran')
+RULE += (' One seed in nine: a write to the runner\'s own stdout fails once (ENOSPC) at a seed-chosen point; the brackets entered so far must be balanced.')
 RULE += (' Cross-version tier (directed specs): the same world and plan also run as REAL processes '
          'under every other supported CPython found on the machine (3.9, 3.10, 3.11, 3.13; unittest '
          'differs between them exactly where the runner hooks in), the same bracket automaton '
@@ -45,8 +46,14 @@ def gen(seed):
         # post-mortem debugging (scripted stdin: 'c'): the first failing test ends the run by
         # EndRun - its bracket must be closed all the same
         opt['pm'] = True
+    knobs = {}
+    if seed % 9 == 5:
+        # a failing system call at an arbitrary point: one write to the runner's own stdout
+        # fails (ENOSPC).  The run may die of it - every test bracket that was entered must
+        # still be balanced
+        knobs['stdout_write_fail'] = rng.randint(1, 80)
     return {'property': ID, 'seed': seed, 'world': world, 'plan': plan, 'opt': opt,
-            'sched': {'prng': seed}, 'knobs': {}}
+            'sched': {'prng': seed}, 'knobs': knobs}
 
 
 def directed(tier, base_seed):
@@ -218,7 +225,8 @@ def run(spec, ctx):
     finally:
         sys.stdin = old_stdin
     viols, st = check_brackets(m, res)
-    check_model(m, res)
+    if 'stdout_write_fail' not in res.fired:
+        check_model(m, res)      # (a test cut short by the injected OSError runs fewer phases)
     fired = C.fired_kinds(res.trace)
     xprobes = {}
     if spec.get('xpy'):
